@@ -20,7 +20,7 @@ func profile(name string) (lifes, forms, variants []int) {
 			[]int{kit.IdPlain, kit.IdNamed, kit.IdGroup, kit.IdAs, kit.IdAsGroup, kit.IdAs2, kit.IdInstance, kit.IdMulti, kit.IdResObj, kit.IdPlainNoErr},
 			[]int{0, 1, 7}
 	case 1: // dependency shapes on plain identities
-		return all, []int{kit.IdPlain}, []int{0, 1, 2, 3, 4, 5, 6, 9, 10, 11, 15}
+		return all, []int{kit.IdPlain}, []int{0, 1, 2, 3, 4, 5, 6, 9, 10, 11, 15, 26}
 	case 2: // groups and interfaces
 		return all, []int{kit.IdPlain, kit.IdGroup, kit.IdAs, kit.IdAsGroup, kit.IdAsNamed}, []int{0, 5, 7, 8, 12, 14, 16, 17}
 	case 4: // multi-output forms incl. those godi cannot construct today
@@ -126,6 +126,19 @@ func step(m *kit.Model, nodes []node, k int, id kit.Ident, ctx string) {
 	}
 	for j := range want {
 		m.Bind(want[j], vals[j], ctx)
+	}
+	// a keyed request with the empty key: either no such registration, or - if
+	// the container reads "" as "no key" - exactly what the unkeyed request
+	// yields under the lifetime rules; never a third thing
+	if id.Group == "" && id.Key == "" && ctx == "sweep2" {
+		v, kerr := nodes[k].p.GetKeyed(id.RType(), "")
+		if kerr == nil {
+			if w2, ok2 := m.Resolve(id, k); ok2 && len(w2) == 1 {
+				m.Bind(w2[0], v, ctx+"/empty key")
+			}
+		} else {
+			vrt.Assert(errors.Is(kerr, godi.ErrServiceNotFound), "C04.empty_key_error", ctx, "GetKeyed with an empty key failed with something else than not-found:", kerr)
+		}
 	}
 }
 
